@@ -93,6 +93,31 @@ def gen_substances(rng, profile):
             subs.append([name, k, p[1], None, None])
         else:
             subs.append([name, k, None, None, p[1]])
+    # twins: a second substance carrying the *same name* as an existing one but another molar mass, density or kind
+    # (hydrate vs anhydrous salt, two grades of a solvent).  For the library these are distinct substances (its identity
+    # is name + kind + molar mass + density); everything keyed by name alone confuses them.
+    if rng.random() < profile.get('p_twin', 0.15):
+        cand = [s for s in subs if s[1] != M.ENZYME]
+        if cand:
+            o = rng.choice(cand)
+            key = o[0] + '~2'
+            how = rng.choice(['mw', 'rho', 'kind', 'both'])
+            mw2 = dec(F(repr(round(float(o[2]) * rng.choice([0.5, 1.1, 2.0, 3.7]) + rng.choice([0, 18.015]), 3))), 8)
+            if o[1] == M.SOLID:
+                if how in ('kind', 'rho'):
+                    subs.append([key, M.LIQUID, o[2] if how == 'kind' else mw2, dec(F(repr(round(loguniform(rng, 0.5, 3), 3))), 6), None, o[0]])
+                else:
+                    subs.append([key, M.SOLID, mw2, None, None, o[0]])
+            else:
+                rho2 = dec(F(repr(round(float(o[3]) * rng.choice([0.8, 1.25, 2.0]), 4))), 6)
+                if how == 'kind':
+                    subs.append([key, M.SOLID, mw2 if rng.random() < 0.5 else o[2], None, None, o[0]])
+                elif how == 'mw':
+                    subs.append([key, M.LIQUID, mw2, o[3], None, o[0]])
+                elif how == 'rho':
+                    subs.append([key, M.LIQUID, o[2], rho2, None, o[0]])
+                else:
+                    subs.append([key, M.LIQUID, mw2, rho2, None, o[0]])
     return subs
 
 
@@ -128,6 +153,9 @@ def gen_selector(rng, shape, want=None, allow_list=False):
     if kind == 'list':
         n = rng.randint(2 if nr * nc >= 2 else 1, min(4, nr * nc))
         cells = rng.sample([(r, c) for r in range(1, nr + 1) for c in range(1, nc + 1)], n)
+        if rng.random() < 0.25:
+            # the same well named twice: a list is visited in the order given, so the well is simply visited twice
+            cells.insert(rng.randint(0, len(cells)), rng.choice(cells))
         return {'k': 'list', 'cells': [list(x) for x in cells], 'forms': [rng.choice(['str', 'tup', 'lab']) for _ in cells]}
     r0 = rng.randint(1, nr)
     r1 = rng.randint(r0, nr)
@@ -165,6 +193,8 @@ class GenA:
         self.n_cont = 0
         self.n_plate = 0
         self.n_sol = 0
+        self.n_hold = 0
+        self.pending = []
 
     # ---- magnitudes
     def volume_scale(self):
@@ -293,14 +323,42 @@ class GenA:
         rng = self.rng
         w = self.p['op_w']
         ops = list(w)
+        if self.pending:
+            return self.pending.pop(0)
         for _ in range(20):
             op = rng.choices(ops, weights=[w[o] for o in ops])[0]
             ev = getattr(self, 'gen_' + op)()
             if ev is not None:
                 if self.b.cache_policy == 'random' and rng.random() < 0.3:
                     ev['cc'] = 1
-                return ev
+                return self.maybe_hold(ev)
         return self.ev_new_container()
+
+    def maybe_hold(self, ev):
+        """Sometimes the user keeps the slice in a variable, looks at it, and then uses that object (once or twice) instead
+        of writing plate[...] inside the call."""
+        rng = self.rng
+        if ev.get('op') not in ('transfer', 'remove', 'fill_to'):
+            return ev
+        refs = [f for f in ('src', 'dst', 'tgt') if isinstance(ev.get(f), list) and len(ev[f]) == 3 and ev[f][2] is not None
+                and ev[f][2].get('k') != 'all']
+        subs = [f for f in refs if ev[f][2].get('k') == 'sub']
+        if not refs or rng.random() >= (0.5 if subs else self.p.get('p_hold_use', 0.12)):
+            return ev
+        f = rng.choice(subs or refs)
+        name, ver, sel = ev[f]
+        held_sel = sel['base'] if sel.get('k') == 'sub' else sel
+        self.n_hold += 1
+        hid = self.n_hold
+        reads = [r for r in ('get', 'shape', 'volumes', 'substances', 'repr') if rng.random() < 0.4]
+        hold = {'op': 'hold_slice', 'tgt': [name, self.resolved_version(name, ver), held_sel], 'hid': hid, 'read': reads}
+        use = dict(ev)
+        use[f] = [name, self.resolved_version(name, ver), sel, {'held': hid}]
+        self.pending.append(use)
+        if rng.random() < 0.4:
+            again = dict(use, obs=rng.randrange(1 << 30))
+            self.pending.append(again)          # the same object used a second time: same plate value, same outcome
+        return hold
 
     def gen_new_container(self):
         if self.n_cont >= 8:
@@ -364,9 +422,9 @@ class GenA:
             dshape = md.shape
         # selectors by form
         if form == 'c>N':
-            dsel = gen_selector(rng, dshape, allow_list=True)
+            dsel = self.maybe_sub(gen_selector(rng, dshape, allow_list=True), dshape)
         elif form == 'N>c':
-            ssel = self.sel_biased_nonempty(ms, allow_list=True)
+            ssel = self.maybe_sub(self.sel_biased_nonempty(ms, allow_list=True), sshape)
         elif form == '1>N':
             ne = self.nonempty_cells(ms)
             if ne and rng.random() < 0.9:
@@ -374,9 +432,16 @@ class GenA:
                 ssel = {'k': 'cell', 'r': r + 1, 'c': c + 1, 'form': rng.choice(['str', 'tup', 'lab'])}
             else:
                 ssel = gen_selector(rng, sshape, 'cell')
-            dsel = gen_selector(rng, dshape, allow_list=True)
+            if rng.random() < 0.1 and min(sshape) >= 1:
+                # the one source well written as a slice of a slice
+                r, c = ssel['r'], ssel['c']
+                r1, c1 = min(sshape[0], r + rng.randint(0, 1)), min(sshape[1], c + rng.randint(0, 1))
+                if (r1, c1) != (r, c):
+                    ssel = {'k': 'sub', 'base': {'k': 'rect', 'r': [r, r1, None], 'c': [c, c1, None], 'rl': False, 'cl': False},
+                            'sub': [[0, 1], [0, 1]]}
+            dsel = self.maybe_sub(gen_selector(rng, dshape, allow_list=True), dshape)
         elif form == 'N>1':
-            ssel = self.sel_biased_nonempty(ms, allow_list=True)
+            ssel = self.maybe_sub(self.sel_biased_nonempty(ms, allow_list=True), sshape)
             dsel = gen_selector(rng, dshape, 'cell')
         elif form == 'N>N':
             h = rng.randint(1, min(sshape[0], dshape[0]))
